@@ -369,7 +369,7 @@ def targeted_signs(tier, top):
             for b in dens:
                 f = ("div", fx[a][0], fy[b][0])
                 out.append(("b", f, _full(f, T)))
-        x, y, z = S("x"), S("y"), S("z")
+        x, z = S("x"), S("z")
         three = [
             _mul(x, fy["v-T"][0], fz["v-T"][0]), _mul(fx["v-T"][0], fy["v-T"][0], fz["v-T"][0]), _mul(fx["v-T"][0], fy["v-T"][0], z),
             _mul(fx["1-v"][0], fy["v-T"][0], fz["v-1"][0]), ("div", _mul(fx["v-T"][0], fy["v-T"][0]), fz["v-T-1"][0]),
@@ -666,7 +666,7 @@ RULE = (
 def _limits(tier):
     if tier == "thorough":
         return dict(depth=3, hi=4, n_d2=1000, n_d3=1000, boxes=2, call_limit=5.0, budget=640.0, budget2=400.0)
-    return dict(depth=2, hi=3, n_d2=750, n_d3=0, boxes=2, call_limit=3.0, budget=86.0, budget2=50.0)
+    return dict(depth=2, hi=3, n_d2=750, n_d3=0, boxes=2, call_limit=3.0, budget=80.0, budget2=45.0)
 
 
 def gen_cases(seed, tier, only_targeted=False, n_targeted=None, n_enumerated=None, tags=None):
@@ -810,6 +810,8 @@ def bounded(p):
     tier = p.get("tier", "quick")
     known = {e.get("class_id") for e in (p.get("known") or []) if isinstance(e, dict)}
     L = _limits(tier)
+    _load()  # importing the package takes 10-30 s (more on a loaded machine): not charged to the time budget of the family
+    tb = time.time()
     nt, ne, tags = [0], [0], []
     cases = gen_cases(seed, tier, only_targeted=bool(p.get("only_targeted")), n_targeted=nt, n_enumerated=ne, tags=tags)
     fam_gen, fam_run, fam_s = {}, {}, {}
@@ -885,7 +887,7 @@ def bounded(p):
 
     done, done_t = [], []
     for i, (tree, names, box) in enumerate(cases):
-        if time.time() - t0 > L["budget"]:
+        if time.time() - tb > L["budget"]:
             stats["truncated"] = True
             stats["truncated_inside_enumerated_part"] = i < ne[0]
             break
@@ -902,7 +904,8 @@ def bounded(p):
         if fail[0]:
             fail[0]["family"] = tags[i]
             break
-    stats["first_pass_s"] = round(time.time() - t0, 1)
+    stats["import_s"] = round(tb - t0, 1)
+    stats["first_pass_s"] = round(time.time() - tb, 1)
     t1 = time.time()
     if not fail[0]:
         _clear_caches()
@@ -929,11 +932,11 @@ def bounded(p):
                   f"constants (rational 1/2, 0, negative and larger constants; depth <= 5): (a) {fam_gen.get('a', 0)} clamp cases Max/Min(c, Q), "
                   f"c in 1/2,1,2,3, Q a quotient of symbols / small products / constants, as clamp-Q, Q-clamp, symbol*clamp, clamp/symbol, "
                   f"clamp*clamp', clamp-1, also with ceiling(Q); (b) {fam_gen.get('b', 0)} products / quotients of 2-3 factors of provable sign "
-                  f"(v-T, 1-v, v-T-1, v-1, v, Min(-1,v-T), Min(0,v-2), ... on boxes within 1..T, T = 3" + (" and 4" if L["hi"] >= 4 else "")
+                  f"(v-T, 1-v, v-T-1, v-1, v, Min(-1,v-T), Min(0,v-2), Min(-1,v-1), Max(1,v-T), ... on boxes within 1..T, T = 3" + (" and 4" if L["hi"] >= 4 else "")
                   + f"; degenerate boxes for == 0); (c) {fam_gen.get('c', 0)} Heaviside cases c1 - c2*H(v-k), k inside / at the edge of / "
                   f"outside the box, and Max/Min(c, k - s), b*Max/Min(c, a/s) shapes whose derivative has a negative Heaviside coefficient. "
                   f"Order: targeted, then depth<=1, then the seeded part; time budget {L['budget']:.0f}s first pass (the seeded part is cut "
-                  f"first) + {L['budget2']:.0f}s second pass"),
+                  f"first) + {L['budget2']:.0f}s second pass, not counting the import of the package"),
         "exhaustive": False, "samples": samples[:8] + list(hit_samples.values())[:5],
         "known_finding_hits": sum(hits.values()), "known_finding_hits_by_class": hits,
         "verdicts_first_pass": verdicts, "non_unknown_verdicts_checked": checked, "of_which_non_vacuous": nonvacuous,
